@@ -185,7 +185,7 @@ func init() {
 		ID:    "C14",
 		Title: "REPL-style evaluation, one top-level statement at a time, matches in-order Go",
 		Explanation: "Decided (the stable-address clause: a pointer obtained in one evaluation keeps aliasing its variable in every later one): O3 the slot array Env.Ints is (re)assigned only by newEnv, NewEnv, newEnv4Func, freeEnv and prepareEnv; PE1 prepareEnv installs a new array only after the IntAddressTaken error check and publishes cap(Ints) as IntBindMax when an address was taken; " +
-			"NB1 a variable becomes an unboxed IntBind only under IntBindMax == 0 || IntBindNum < IntBindMax; Q1 every &E.Ints[i] that leaves its expression (all of package fast, including imported interpreted packages) is preceded by E.IntAddressTaken = true on the same frame; A4b every function that addresses a variable's unboxed slot is entered only for IntBind variables; V0 no &E.Vals[i] exists (boxed cells are addressed through reflect, so Vals may grow); V1 assignment code stores into a boxed cell and never replaces it; A3/A4/A5/A6 on the variable-assignment specialisations (the boxed arms are reached mostly by REPL histories). " +
+			"NB1 a variable becomes an unboxed IntBind only under IntBindMax == 0 || IntBindNum < IntBindMax; Q1 every &E.Ints[i] that leaves its expression (all of package fast, including imported interpreted packages) is preceded by E.IntAddressTaken = true on the same frame; A4b every function that addresses a variable's unboxed slot is entered only for IntBind variables (the variable being a parameter, or a local obtained from one of the functions that resolve a user expression to a place: rangeVars, Place, Resolve, ... — that clause found F34); V0 no &E.Vals[i] exists (boxed cells are addressed through reflect, so Vals may grow); V1 assignment code stores into a boxed cell and never replaces it; A3/A4/A5/A6 on the variable-assignment specialisations (the boxed arms are reached mostly by REPL histories). " +
 			"Not decided: that each evaluation sees the effects of all earlier ones (run-time state), the two-slot complex128 arithmetic on IntBindMax.",
 		Assumptions: []string{"reflect.Value.Addr() of a boxed cell does not point into Env.Vals", "Go's append/make semantics"},
 		Rules: []func(*Ctx){func(c *Ctx) {
@@ -206,6 +206,7 @@ func init() {
 			c.Floor("A4-ints-guard", 18)
 		}},
 		Mutants: []Mutant{
+			{Name: "range-string-direct-store-any-class", File: "fast/range.go", Old: "direct := placeval != nil && placeval.IsVar() && placeval.Var.Desc.Class() == IntBind", New: "direct := placeval != nil && placeval.IsVar()"},
 			{Name: "import-mark-dropped", File: "fast/import.go", Old: "\timpenv.IntAddressTaken = true\n", New: "", Canary: true},
 			{Name: "prepareenv-realloc-unchecked", File: "fast/repl.go", Old: "\t\tif env.IntAddressTaken {\n\t\t\tc.Errorf(\"internal error: attempt to reallocate Env.Ints[] after one of its addresses was taken\")\n\t\t}\n", New: "", Canary: true},
 			{Name: "newbind-ignores-max", File: "fast/declaration.go", Old: "if (c.IntBindMax == 0 || c.IntBindNum < c.IntBindMax) &&", New: "if (c.IntBindMax == 0 || c.IntBindNum <= c.IntBindMax) &&"},
@@ -530,7 +531,7 @@ func init() {
 		Title: "Statement control flow is executed exactly as in Go",
 		Explanation: "Decided: S1 every one of the ~3 800 statement closures of package fast returns Code[IP] of the environment it returns after exactly one advance of IP (or Code[t] after IP = t) on every path — an IP that is not advanced, or a statement taken from another frame than the one returned, is the generic control-flow bug; " +
 			"J1 in jumpOut and every other depth-specialised jump the frame whose IP is set and whose code is indexed is the one the arm names; J2 break/continue/goto stop at the enclosing function, count the frames to leave after each level and pass the count to jumpOut (D3: the compiler-chain walk advances one link per iteration); " +
-			"J3 every late-bound jump target (jump.Cond/Post/Break/..., LoopInfo.Break/Continue) is assigned a code position on every path to the end of its compile function; J4 Comp.Stmt has a case for every statement node of go/ast; U sibling uniformity of the kind-specialised switch / range / select closures (including the arms that are alone in their category, compared modulo storage class). " +
+			"J3 every late-bound jump target (jump.Cond/Post/Break/..., LoopInfo.Break/Continue) is assigned a code position on every path to the end of its compile function; J4 Comp.Stmt has a case for every statement node of go/ast; U sibling uniformity of the kind-specialised switch / range / select closures (including the arms that are alone in their category, compared modulo storage class); A3 a statement closure that walks Outer links in a counted loop up to the frame of a variable (the count derived from the variable's Upn) accesses that variable's slot on the frame it reached, never on the current one (found F32 in rangeString); G1 the places a for-range statement assigns to (returned by rangeVars) are only tested and assigned with SetPlace(p, ASSIGN, ...), never read, updated in place or re-bound to the loop's own counter, and each assignment is emitted after jump.Start and after an exit test (a statement that can jump to jump.Break) on every path, a direct store being in the continuing branch of that test (found F29, F33). " +
 			"Not decided: the sequence of executed statements as such (switch dispatch optimisations, fallthrough, range and select semantics).",
 		Assumptions: []string{"the executor runs the statement returned by the previous one (C13 rules)"},
 		Rules: []func(*Ctx){func(c *Ctx) {
@@ -540,6 +541,9 @@ func init() {
 			ruleChainStride(c, []string{"fast"}, "D3-stride")
 			ruleLateBoundTargets(c, "J3-late-bound-targets")
 			ruleStmtCoverage(c, "fast.Comp.Stmt", "Stmt", "J4-stmt-coverage")
+			ruleDepthLoops(c, "fast", nil, "A3-depth-loop")
+			ruleRangePlaces(c, "G1-range-places")
+			c.Floor("G1-range-places", 8)
 			ruleUniformity(c, "fast", []string{"switch.go", "switch2.go", "switch_type.go", "range.go", "range_map.go", "select.go", "statement.go"}, "U-uniform")
 			c.Floor("S1-stmt-protocol", 2300)
 			c.Floor("U-uniform", 25)
@@ -549,6 +553,9 @@ func init() {
 			{Name: "for-break-target-unset", File: "fast/statement.go", Old: "\tjump.Break = c.Code.Len()\n\n\tc = c.popEnvIfLocalBinds(initLocals, &initBinds, node.Init)\n}\n\n// Go compiles", New: "\n\tc = c.popEnvIfLocalBinds(initLocals, &initBinds, node.Init)\n}\n\n// Go compiles", Canary: true},
 			{Name: "break-crosses-function", File: "fast/statement.go", Old: "\tfor o := c; o != nil && o.Func == nil; o = o.Outer {\n\t\tif o.Loop != nil && o.Loop.Break != nil {", New: "\tfor o := c; o != nil; o = o.Outer {\n\t\tif o.Loop != nil && o.Loop.Break != nil {"},
 			{Name: "continue-upcost-before-check", File: "fast/statement.go", Old: "\tfor o := c; o != nil && o.Func == nil; o = o.Outer {\n\t\tif o.Loop != nil && o.Loop.Continue != nil {", New: "\tfor o := c; o != nil && o.Func == nil; o = o.Outer {\n\t\tupn += o.UpCost\n\t\tif o.Loop != nil && o.Loop.Continue != nil {"},
+			{Name: "range-string-rune-stored-in-current-frame", File: "fast/range.go", Old: "*(*int32)(unsafe.Pointer(&o.Ints[idxval])) = r", New: "*(*int32)(unsafe.Pointer(&env.Ints[idxval])) = r"},
+			{Name: "range-slice-user-key-incremented", File: "fast/range.go", Old: "c.SetPlace(placeidx, token.ADD_ASSIGN, one)", New: "c.SetPlace(placekey, token.ADD_ASSIGN, one)"},
+			{Name: "range-string-key-assigned-without-exit-test", File: "fast/range.go", Old: "\t\t\tif env.Ints[idxnext] < uint64(len(env.Vals[idxrange].String())) {\n\t\t\t\tip = env.IP + 1\n\t\t\t} else {\n\t\t\t\tip = jump.Break\n\t\t\t}", New: "\t\t\tip = env.IP + 1"},
 			{Name: "if-statement-ip-not-advanced", File: "fast/statement.go", Old: "ip = env.IP + 1\n\t\t\t\t// Debugf(\"for: condition = true", New: "ip = env.IP\n\t\t\t\t// Debugf(\"for: condition = true"},
 		},
 	})
